@@ -38,7 +38,7 @@ ids = sorted(d for d in os.listdir(os.path.join(VERIF, "equivalent")) if os.path
 if len(sys.argv) > 1:
     ids = [i for i in ids if i in sys.argv[1:] or i.split("-")[0] in sys.argv[1:]]
 n_bad = 0
-with ThreadPoolExecutor(6) as ex:
+with ThreadPoolExecutor(12) as ex:
     for sid, out in ex.map(one, ids):
         for prop, msg in out:
             n_bad += 1
